@@ -225,17 +225,19 @@ func (ss *scriptServer) loop() {
 			c.Close()
 			continue
 		}
-		ss.mu.Lock()
-		first := ss.accepts == 0
-		ss.accepts++
-		ss.mu.Unlock()
 		sc, err := ss.srv.handshake(c, 2*time.Second, nil)
 		if err != nil {
-			if !ss.sc.closing.Load() {
+			// a handshake for another key is not ours: a Connection retired by an earlier scenario of this process may
+			// still be in its reconnect loop and reach a listener that got the same port
+			if !ss.sc.closing.Load() && !strings.Contains(err.Error(), "unknown key id") {
 				ss.sc.log.setFail("handshake-rejected-by-server conn=%d %v", ss.idx, err)
 			}
 			continue
 		}
+		ss.mu.Lock()
+		first := ss.accepts == 0
+		ss.accepts++
+		ss.mu.Unlock()
 		ss.emu.Lock()
 		ss.mu.Lock()
 		ss.cur = sc
@@ -504,7 +506,14 @@ func (sc *scenario) doCall(k int) callResult {
 		limit = sc.short
 	}
 	start := time.Now()
+	watchdog := time.AfterFunc(limit+10*time.Second, func() {
+		// a Request far beyond its deadline: keep the goroutine dump for diagnosis
+		buf := make([]byte, 1<<22)
+		n := runtime.Stack(buf, true)
+		dumpRejected(fmt.Sprintf("# call %d still inside Request %v after its deadline", k, 10*time.Second), string(buf[:n]))
+	})
 	b, err := sc.client.Request(ctx, q)
+	watchdog.Stop()
 	el := time.Since(start)
 	res := callResult{over: el - limit}
 	switch {
@@ -677,6 +686,7 @@ func goClientChaos(a []string) string {
 		return "FAIL model-unavailable " + merr.Error()
 	}
 	if ans[0] != "accept" {
+		dumpRejected(line, ans[0])
 		return "FAIL history-not-a-trace " + ans[0] + " :: " + clip12(strings.Join(evs, " "))
 	}
 	// recovery: every connection is Connected again within the bound and calls succeed on each of them
@@ -730,6 +740,21 @@ func goClientChaos(a []string) string {
 		return fmt.Sprintf("FAIL registry-leak entries=%d", n)
 	}
 	return "ok"
+}
+
+// dumpRejected keeps the complete rejected history (the answer line is clipped) under <verif>/.work/C12_rejects/ as a
+// ready-made input for the model driver.
+func dumpRejected(line, why string) {
+	exe, err := os.Executable()
+	if err != nil {
+		return
+	}
+	dir := filepath.Join(filepath.Dir(exe), "..", "..", ".work", "C12_rejects")
+	if os.MkdirAll(dir, 0o755) != nil {
+		return
+	}
+	name := fmt.Sprintf("%d_%d.txt", time.Now().UnixNano(), os.Getpid())
+	os.WriteFile(filepath.Join(dir, name), []byte(line+"\n# "+why+"\n"), 0o644)
 }
 
 func clip12(s string) string {
@@ -862,7 +887,7 @@ func goClientRace(a []string) string {
 	}
 	run := osexec.Command(out, "exec", "-prop", "C12", "-timeout", "120s")
 	run.Stdin = &buf
-	run.Env = append(os.Environ(), "GORACE=halt_on_error=0")
+	run.Env = append(os.Environ(), "GORACE=halt_on_error=0", "VERIF_MODEL_BIN="+modelPath())
 	var so, se bytes.Buffer
 	run.Stdout, run.Stderr = &so, &se
 	rerr := run.Run()
